@@ -218,8 +218,15 @@ class GenDyn(Gen):
             steps.append(["c", "C", []])
         elif k < 0.45 and ("P", "Q") in self.mir["pf"] and ["P", "Q"] in self.mir["sp"]:
             steps.append(["c", "Q", []])
-            steps.append(["i", "", [rng.choice(KEYS)]])
+            steps.append(["i", "", self.qkey()])
         return path, steps
+
+    def qkey(self):
+        """Full-length arguments of the nested parametrised space (steps are written with
+        every argument; defaults are exercised by get_item spellings only)."""
+        f = self.mir["pf"].get(("P", "Q"))
+        n = len(self.flib[f]["ps"]) if f else 1
+        return [self.rng.choice(KEYS)] + [self.rng.choice([0, 1]) for _ in range(n - 1)]
 
     def base_of(self, path, steps):
         p = list(path)
@@ -293,7 +300,7 @@ class GenDyn(Gen):
             sp = "call"
         if rng.random() < 0.25 and ("P", "Q") in self.mir["pf"] and ["P", "Q"] in self.mir["sp"]:
             return {"op": "get_item", "s": ["P"], "st": [["i", "", self.key()], ["c", "Q", []]],
-                    "key": [rng.choice(KEYS)], "sp": rng.choice(["sub", "call"])}
+                    "key": self.qkey(), "sp": rng.choice(["sub", "call"])}
         return {"op": "get_item", "s": ["P"], "st": [], "key": key, "sp": sp}
 
     def mk_del_item(self):
